@@ -858,7 +858,7 @@ class Spec:
                          "Mhd.C11.upload_lossless", "Mhd.C11.reply_lossless", "Mhd.C11.upload_complete",
                          "Mhd.C11.stutter_equivalence", "Mhd.C11.pipeline_order", "Mhd.C11.epoll_no_lost_wakeup",
                          "Mhd.C11.eready_traversal_visits", "Mhd.C11.no_block_while_pending",
-                         "Mhd.C11.resume_inside_traversal_partial", "Mhd.C11.timer_guards_present",
+                         "Mhd.C11.resume_any_point_of_round", "Mhd.C11.timer_guards_present",
                          "Mhd.C11.resume_restarts_timer_all_lists", "Mhd.C11.no_timeout_while_suspended",
                          "Mhd.C11.no_early_timeout_after_resume", "Mhd.C11.manual_restart_witness",
                          "Mhd.C11.set_timeout_while_suspended_keeps_lists", "Mhd.C11.timeout_lists_consistent",
